@@ -218,6 +218,11 @@ func genMods(r *gen.Rand, rc Recv, allowProto bool) []Op {
 	final := ""
 	for j := 0; j < k; j++ {
 		idx := fmt.Sprint(r.Range(0, maxInt(n, 1)))
+		if rc.Kind == "string" {
+			// redefining the index properties of a String wrapper exercises the
+			// String exotic object (property C09), not Array code
+			idx = fmt.Sprint(n + r.Range(0, 1))
+		}
 		switch r.Weighted([]int{8, 6, 6, 8, 10, 7, 7, 16}) {
 		case 0:
 			final = "freeze"
@@ -690,7 +695,8 @@ func genBigCase(r *gen.Rand) Input {
 	in := Input{Cat: "biglen"}
 	L := top
 	if r.Chance(3, 5) {
-		lens := []V{vN(top), vN(-1), vN(top - 1), vN(two32 + top), vN(two31), vN(two31 + 1)}
+		lens := []V{vN(top), vN(-1), vN(top - 1), vN(two32 + top), vN(two31), vN(two31 + 1),
+			vN(9223372036854777856), vN(1e20), vN(-9223372036854777856)} // beyond int64: ToUint32 is still exact modulo arithmetic
 		lv := lens[r.Intn(len(lens))]
 		switch float64(lv.N) {
 		case top - 1:
@@ -699,6 +705,12 @@ func genBigCase(r *gen.Rand) Input {
 			L = two31
 		case two31 + 1:
 			L = two31 + 1
+		case 9223372036854777856:
+			L = 2048
+		case 1e20:
+			L = 1661992960
+		case -9223372036854777856:
+			L = two32 - 2048
 		}
 		rc = Recv{Kind: "alike", E: genElems(r, r.Range(0, 2), 0, 1, false), Len: pV(lv)}
 		for _, off := range []float64{1, 2, 3, 0, -1} {
